@@ -716,6 +716,26 @@ pub fn replay(v: &Value) {
     println!("panic: {:?}", run.panic);
     println!("C01 monitor: {:?}", run.c01.violations.iter().take(5).collect::<Vec<_>>());
     println!("C02 check  : {:?}", c02_check(&run));
+    {
+        // the C13 trace oracle on the same run (needs the scenario-level view of the configuration)
+        let sc = crate::props::w3props::Scenario {
+            addrs: cfg.stations.iter().map(|s| s.addr).collect(),
+            hsa: cfg.hsa,
+            gap: cfg.gap,
+            baud: cfg.baud,
+            slot_bits: cfg.slot_bits,
+            ttr: cfg.ttr,
+            divs: cfg.stations.iter().map(|s| s.div).collect(),
+            phases: cfg.stations.iter().map(|s| s.phase3).collect(),
+            deaf: cfg.deaf_phy,
+            loads: cfg.stations.iter().map(|s| s.load).collect(),
+            late: vec![],
+            responders: cfg.responders.clone(),
+            origin: cfg.origin_us,
+            repoll: cfg.repoll,
+        };
+        println!("C13 check  : {:?}", crate::props::w3props::c13_check(&run, &sc));
+    }
     for i in 0..cfg.stations.len() {
         println!("station #{}: {:?}", cfg.stations[i].addr, run.view(i));
     }
